@@ -248,7 +248,7 @@ def replay(payload):
 def strategy():
     from hypothesis import strategies as st
 
-    fns = PG.functions(PG.Flags(walrus_in_comp=True, global_decl=True, nonlocal_decl=True))
+    fns = PG.functions(PG.Flags(walrus_in_comp=True, global_decl=True, nonlocal_decl=True, own_name_local=True))
 
     @st.composite
     def cases(draw):
